@@ -49,6 +49,9 @@ def make_typed_model():
     return Event, Jet
 
 
+# what a failing executor raises (by call number): includes the types a wrapper might mistake for its own
+EXC = (KeyError, TypeError, ValueError, AttributeError, StopIteration if False else RuntimeError)
+
 BODIES = {
     # item kind -> {op: lambda source}
     "any": {"Select": "lambda e: e.x", "Where": "lambda e: e.x > 1", "SelectMany": "lambda e: e.ys",
@@ -82,7 +85,7 @@ class World:
             async def execute_result_async(self, a, title=None):
                 world.log.append((self.idx, a, title))
                 if self.fail:
-                    raise KeyError(("boom", self.idx, len(world.log)))
+                    raise EXC[len(world.log) % len(EXC)](("boom", self.idx, len(world.log)))
                 return ("tok", self.idx, len(world.log))
 
         self.datasets = []
@@ -204,8 +207,8 @@ class World:
                     ret = ("ret", s.value(executor=override, title=title))
                 else:
                     ret = ("ret", s.value(title=title))
-            except KeyError as e:
-                ret = ("raise", e.args[0])
+            except EXC as e:
+                ret = ("raise", type(e).__name__, e.args[0])
             self.last = dict(target=i, before=before, expected_ast=expected_ast, n0=n0, title=title, ret=ret,
                              override=name == "ValueOv", ov_log=ov_log)
         else:
